@@ -53,6 +53,8 @@ Judge(e) ==
                         /\ Report(x.hasid => x.id = W.ids[t], e, "C20.order", r)
                         /\ Report(x.hasname => ((x.blank \/ x.indent = 3 * rows[r].depth) /\ x.name = W.name[t]), e, "C20.indent", r)
                         /\ Report(x.haspre => x.pre = LinkCell(W, t), e, "C20.links", r)
+                        /\ Report(x.hassuc => (Len(x.suc) = Cardinality(SuccCell(W, t)) /\ RanR(x.suc) = SuccCell(W, t)),
+                                  e, "C20.links", r)
                         /\ Report(x.haspar => x.par = (IF W.par[t] = 0 THEN 0 ELSE W.ids[W.par[t]]), e, "C20.parent", r)
                         /\ Report(x.unknownempty, e, "C20.unknown", r)
                         /\ Report(x.fits, e, "C20.wide", r)
